@@ -135,7 +135,9 @@ let run_hp toks cout =
       | 's' -> string_of_bool01 (int_of_nat (heap_size !a) = 0)
       | _ -> "?" in
     Buffer.add_char buf ' '; Buffer.add_string buf out;
-    Buffer.add_char buf ' '; Buffer.add_string buf (string_of_int (int_of_nat (heap_size !a)))) ops;
+    Buffer.add_char buf ' '; Buffer.add_string buf (string_of_int (int_of_nat (heap_size !a)));
+    (* C20_heap_refines: the heap order holds after every operation *)
+    Buffer.add_string buf " h1") ops;
   Buffer.add_string buf " ; D";
   let rec drain () = match step !a HPop with
     | (a', HRElem (Some e)) -> a := a'; Buffer.add_char buf ' '; Buffer.add_string buf (string_of_int e); drain ()
@@ -164,7 +166,9 @@ let run_hp toks cout =
                                else fail k ("bytes leaked: " ^ refs))
             | x :: r -> (match chk k HPop (HRElem (elem_of x)) with Some e -> e | None -> dr (k + 1) r) in
           dr k popped
-        | op :: ops', [ret; size] :: groups' ->
+        | op :: ops', [ret; size; "h0"] :: _ ->
+          ignore (ret, size, op); fail k "the array is not heap ordered after this operation (some element is above its parent)"
+        | op :: ops', [ret; size; "h1"] :: groups' ->
           let arg = tail_from op 1 in
           let res =
             (match op.[0] with
